@@ -647,7 +647,7 @@ func runC30(r *vk.Run, sc c30script) (res c30result) {
 func c30() {
 	r := vk.Start("C30", "exploration")
 	c30health = startHealth()
-	n := r.Pick(10000, 300000)
+	n := r.Pick(20000, 600000)
 	procsCycle := []int{16, 4, 2, 16}
 	batch := (n + len(procsCycle) - 1) / len(procsCycle)
 	defaultProcs := runtime.GOMAXPROCS(0)
